@@ -13,7 +13,10 @@
    Response::from_stream over a scripted reader under split plans and 3..5 byte mappings of the body symbols,
    SetCookie for all 2^7 attribute subsets, the StatusCode tables, and Client::get(..).with_redirects(..).send()
    against a scripted server on 127.0.0.1:80 / 127.0.0.2:80 playing every chain TLC generated.
-3. code -> spec: random large responses (0..40 headers, repeated names, 64 KiB bodies, random chunkings and
+   A family with 30..100 header fields of which 2..10 are Set-Cookie (with_cookie) and 2..10 share a custom name
+   checks the order of same-named fields after serialising and after parsing back (a sort that is not stable
+   only shows above 32 fields).
+3. code -> spec: random large responses (0..48 headers, repeated names, 64 KiB bodies, random chunkings and
    segmentations) and random redirect scripts run on the real code; the logs are validated by TLC
    (Trace_HttpResp, Trace_Client).
 Deviation CrlfAfterBody (open in KNOWN_FINDINGS.txt) is attributed only when the bytes after the body are
@@ -31,7 +34,7 @@ RESP_ACTIONS = ["Ser_StatusLine", "Ser_Header", "Ser_Blank", "Ser_Body", "Par_St
 CLIENT_ACTIONS = ["Cl_Send", "Srv_Respond", "Cl_Read", "Cl_Redirect", "Cl_Return"]
 RESP_BUGS = [("dev_CrlfAfterBody", "SerValid"), ("bug_SplitAllSpaces", None), ("bug_DecimalChunkSize", None),
              ("bug_NoCrlfAfterChunk", None), ("bug_SingleRead", None), ("bug_PhraseTypo", "SerValid"), ("bug_WrongCode", "SerValid"),
-             ("bug_NoBlankLine", "SerValid"), ("bug_TeKeptAfterDecode", "ParCorrect")]
+             ("bug_NoBlankLine", "SerValid"), ("bug_TeKeptAfterDecode", "ParCorrect"), ("bug_UnstableSameNameOrder", "SerValid")]
 CLIENT_BUGS = ["bug_Follow303", "bug_StopAfterFirst", "bug_RelToFirstHost", "bug_AbsKeepsHost", "bug_Skip307",
                "reach_MaxChain", "reach_HostSwitch"]
 
@@ -83,7 +86,7 @@ def run(tier, replay):
 
     # ---- all TLC work that does not depend on the harness runs concurrently, at most 8 TLC workers in total ----
     # quick: the open deviation and a representative subset of the plausible bugs; thorough: all of them
-    rb = RESP_BUGS if thorough else [x for x in RESP_BUGS if x[0] in ("dev_CrlfAfterBody", "bug_DecimalChunkSize", "bug_SplitAllSpaces")]
+    rb = RESP_BUGS if thorough else [x for x in RESP_BUGS if x[0] in ("dev_CrlfAfterBody", "bug_DecimalChunkSize", "bug_SplitAllSpaces", "bug_UnstableSameNameOrder")]
     cb = CLIENT_BUGS if thorough else ["bug_Follow303", "bug_StopAfterFirst", "reach_MaxChain"]
     jobs = [("mc:A", lambda: tlc("MC_HttpResp.tla", "MC_HttpResp_%sA.cfg" % T, 2 if thorough else 1, coverage=True)),
             ("mc:B", lambda: tlc("MC_HttpResp.tla", "MC_HttpResp_%sB.cfg" % T, 2 if thorough else 1, coverage=True)),
@@ -93,7 +96,7 @@ def run(tier, replay):
             ("gen:A", lambda: tlc("MC_HttpResp.tla", "Gen_HttpResp_%sA.cfg" % T)),
             ("gen:B", lambda: tlc("MC_HttpResp.tla", "Gen_HttpResp_%sB.cfg" % T)),
             ("gen:C", lambda: tlc("MC_HttpResp.tla", "Gen_HttpResp_%sC.cfg" % T)),
-            ("gen:cookie", lambda: tlc("MC_HttpResp.tla", "Gen_HttpResp_cookie.cfg", heap="1g", short=True)),
+            ("gen:extra", lambda: tlc("MC_HttpResp.tla", "Gen_HttpResp_extra_%s.cfg" % T, heap="1g", short=not thorough)),
             ("gen:client", lambda: tlc("MC_Client.tla", "Gen_Client_%s.cfg" % T, heap="1g"))]
     jobs += [("sens:resp:" + n, (lambda n=n: tlc("MC_HttpResp.tla", "MC_HttpResp_%s.cfg" % n, 1, heap="1g", short=True))) for n, _ in rb]
     jobs += [("sens:client:" + n, (lambda n=n: tlc("MC_Client.tla", "MC_Client_%s.cfg" % n, 1, heap="1g", short=True))) for n in cb]
@@ -133,7 +136,7 @@ def run(tier, replay):
 
     # ---- 2. vectors from TLC replayed on the real code ------------------------------------------------------
     vectors = []
-    for name in ("A", "B", "C", "cookie"):
+    for name in ("A", "B", "C", "extra"):
         g = gen[name]
         if g.violation:
             raise vlib.ToolError("generation %s failed (%s %s): the spec-level lemma does not hold\n%s" % (name, g.violation, g.violated_name, g.out[-1500:]))
@@ -211,12 +214,6 @@ def run(tier, replay):
             f.write(p2.stdout)
         jobs.append(("client", lambda: tlc("Trace_Client.tla", "Trace_Client.cfg", env={"TRACE": ctr}, deque=True, heap="3g")))
     tv = par(jobs, 3)
-    t = tv["resp-selftest"]
-    os.remove(trs)
-    sv = t.prints[-1] if t.prints else {}
-    if [x["line"] for x in sv.get("rejected", [])] != [victim + 1]:
-        raise vlib.ToolError("trace self-test: a corrupted record (line %d) was not the one rejected by Trace_HttpResp: %s" % (victim + 1, sv))
-    ctx.cov["parts"]["binding self-test"]["corrupted_trace_record_rejected"] = True
     t = tv["resp"]
     ctx.add_tlc("trace validation of %d random large responses (Trace_HttpResp)" % n, t)
     verdict = t.prints[-1] if t.prints else None
@@ -237,6 +234,15 @@ def run(tier, replay):
     elif t.violation:
         raise vlib.ToolError("Trace_HttpResp failed without a verdict: %s" % t.out[-1500:])
     os.remove(tr)
+    # the self-test: the flipped field of the victim record must be among the reasons TLC gives for that line (other
+    # lines may be rejected too when the code under test is defective - that is the main run's verdict, not a tool error)
+    st = tv["resp-selftest"]
+    os.remove(trs)
+    sv = st.prints[-1] if st.prints else {}
+    hit = [x for x in sv.get("rejected", []) if x["line"] == victim + 1 and "body" in x["fails"]]
+    if not hit and len(sv.get("rejected", [])) < 20 and not ctx.violations:
+        raise vlib.ToolError("trace self-test: the corrupted record (line %d, body hash flipped) was not rejected by Trace_HttpResp: %s" % (victim + 1, sv))
+    ctx.cov["parts"]["binding self-test"]["corrupted_trace_record_rejected"] = bool(hit)
     if client_ok:
         t = tv["client"]
         nev = len(p2.stdout.splitlines())
